@@ -5,7 +5,8 @@ import ast
 
 from ..core import Ctx
 from ..normform import equal
-from ..symex import SUMMARIZER, expand, strip_ifexp_paths, u
+from ..stmts import check_side_paths
+from ..symex import SUMMARIZER, expand, strip_ifexp_paths, u, main_leaf, main_path, side_paths
 
 MM = "matrix/measure.py"
 SM = "stripe/measure.py"
@@ -41,22 +42,21 @@ def strand(ctx: Ctx):
     ctx.check_expr("strand-formulas", f"{SM}::_ScaledCounts._total_weighted_count", e, "np.sum(self._weighted_counts)")
     e = expand(ctx.repo, ci, "scale_mean", stop=keep)
     paths = strip_ifexp_paths(e)
-    leaf = paths[-1][1]
+    leaf = main_leaf(e)
     v, cnf, snf, _ = equal(leaf, "self._total_scaled_count / self._total_weighted_count")
     ctx.ob("strand-formulas", f"{SM}::_ScaledCounts.scale_mean", cnf, snf, v, "mean = sum(w v)/sum(w)")
-    guards = [(u(g[-1][0]), u(l)) for g, l in paths[:-1]]
-    ctx.ob("strand-none", f"{SM}::_ScaledCounts.scale_mean", guards, "[('self._numeric_values.size == 0', 'None'), ('self._total_weighted_count == 0', 'None')]", guards == [("self._numeric_values.size == 0", "None"), ("self._total_weighted_count == 0", "None")], "None when no row has a numeric value or nobody was counted")
+    check_side_paths(ctx, "strand-none", f"{SM}::_ScaledCounts.scale_mean", e, [("self._numeric_values.size == 0", "None"), ("self._total_weighted_count == 0", "None")], "None when no row has a numeric value or nobody was counted")
     e = expand(ctx.repo, ci, "_scale_variance", stop=keep)
     paths = strip_ifexp_paths(e)
-    v, cnf, snf, _ = equal(paths[-1][1], "np.sum(self._weighted_counts * (self._numeric_values - self.scale_mean)**2) / self._total_weighted_count")
+    v, cnf, snf, _ = equal(main_leaf(e), "np.sum(self._weighted_counts * (self._numeric_values - self.scale_mean)**2) / self._total_weighted_count")
     ctx.ob("strand-formulas", f"{SM}::_ScaledCounts._scale_variance", cnf, snf, v, "population variance of the numeric values, weighted")
     _none_guards(ctx, ci, "_scale_variance", e)
     e = expand(ctx.repo, ci, "scale_stddev", stop=keep)
-    v, cnf, snf, _ = equal(strip_ifexp_paths(e)[-1][1], "sqrt(self._scale_variance)")
+    v, cnf, snf, _ = equal(main_leaf(e), "sqrt(self._scale_variance)")
     ctx.ob("strand-formulas", f"{SM}::_ScaledCounts.scale_stddev", cnf, snf, v)
     _none_guards(ctx, ci, "scale_stddev", e)
     e = expand(ctx.repo, ci, "scale_stderr", stop=keep)
-    v, cnf, snf, _ = equal(strip_ifexp_paths(e)[-1][1], "sqrt(self._scale_variance / self._total_weighted_count)")
+    v, cnf, snf, _ = equal(main_leaf(e), "sqrt(self._scale_variance / self._total_weighted_count)")
     ctx.ob("strand-formulas", f"{SM}::_ScaledCounts.scale_stderr", cnf, snf, v, "std-err = sqrt(variance / weighted count of numeric-valued respondents)")
     _none_guards(ctx, ci, "scale_stderr", e)
     e = expand(ctx.repo, ci, "_weighted_counts", stop=lambda m: m.name == "_has_numeric_value")
@@ -96,7 +96,7 @@ def slice_mean(ctx: Ctx):
     v, cnf, snf, _ = equal(body, "np.nansum(values * proportions) / np.sum(proportions[~np.isnan(values)])")
     ctx.ob("slice-mean", f"{MM}::_ScaleMean._weighted_mean", cnf, snf, v, "weighted mean of the numeric values by the proportions, renormalised over numeric-valued categories")
     e = expand(ctx.repo, ci, "blocks", stop=lambda mm: mm.name in ("is_defined", "_proportions", "_opposing_numeric_values", "_apply_along_orientation"))
-    leaf = strip_ifexp_paths(e)[-1][1]
+    leaf = main_leaf(e)
     ctx.check_expr("slice-mean", f"{MM}::_ScaleMean.blocks", leaf, "[self._apply_along_orientation(self._weighted_mean, proportion, values=self._opposing_numeric_values) for proportion in self._proportions]")
     e = expand(ctx.repo, ci, "_proportions")
     W, R, C = f"{SOM}.weighted_counts.blocks", f"{SOM}.row_weighted_bases.blocks", f"{SOM}.column_weighted_bases.blocks"
@@ -109,7 +109,7 @@ def slice_mean(ctx: Ctx):
     )
     ssd = ctx.repo.cls(MM, "_ScaleMeanStddev")
     e = expand(ctx.repo, ssd, "blocks", stop=lambda mm: mm.name in ("is_defined", "_stddev_func", "_counts", "_opposing_numeric_values", "_scale_means"))
-    leaf = strip_ifexp_paths(e)[-1][1]
+    leaf = main_leaf(e)
     ctx.check_expr("slice-stddev", f"{MM}::_ScaleMeanStddev.blocks", leaf, "[self._stddev_func(count, self._opposing_numeric_values, scale_means) for count, scale_means in zip(self._counts, self._scale_means)]")
     for fn, ax, mask in (("_rows_weighted_mean_stddev", 1, "counts[:, not_a_nan_index]"), ("_columns_weighted_mean_stddev", 0, "counts[not_a_nan_index, :]")):
         m = ctx.repo.lookup(ssd, fn)
@@ -121,7 +121,7 @@ def slice_mean(ctx: Ctx):
 def slice_stderr(ctx: Ctx):
     ci = ctx.repo.cls(MM, "_ScaleMeanStderr")
     e = expand(ctx.repo, ci, "blocks", stop=lambda mm: mm.name in ("is_defined", "_scale_mean_stddev", "_margin"))
-    leaf = strip_ifexp_paths(e)[-1][1]
+    leaf = main_leaf(e)
     if isinstance(leaf, ast.List) and len(leaf.elts) == 2:
         for k in (0, 1):
             v, cnf, snf, _ = equal(leaf.elts[k], f"self._scale_mean_stddev.blocks[{k}] / sqrt(self._margin.blocks[{k}])")
